@@ -391,10 +391,20 @@ def classify(shrunk, model_report, results, projected=None):
 # ------------------------------------------------------------------------------------------------
 # shortcut decisions: the rules modelled in coq/C04/Deep2_C04.v against the registers named by boa's bytecode
 
-def gen_operand(rng, depth):
-    """-> (sexp for the model, JavaScript) over the locals a (0) and b (1)"""
+def gen_operand(rng, depth, force=None):
+    """-> (sexp for the model's `ex`, JavaScript) over the locals a (0) and b (1).
+    Shapes: literal, this, identifier, assignment / compound assignment / update, binary operator, member access,
+    computed member access (the key is code), optional chains, calls, array / object / template literals, comma,
+    conditional.  `force` picks the top-level shape."""
     x = rng.random()
-    if depth <= 0 or x < 0.35:
+    kind = force
+    if kind is None:
+        if depth <= 0 or x < 0.25:
+            kind = "atom"
+        else:
+            kind = rng.choice(["asg", "asg", "bin", "mem", "idx", "idx", "call", "arr", "obj", "tpl", "comma", "cond", "optidx", "optcall"])
+    sub = lambda: gen_operand(rng, depth - 1)
+    if kind == "atom":
         k = rng.randrange(4)
         if k == 0:
             return "(0)", str(rng.randrange(0, 9))
@@ -402,17 +412,58 @@ def gen_operand(rng, depth):
             return "(1)", "this"
         v = rng.randrange(2)
         return "(2 %d)" % v, rng.choice(["%s", "%s", "(%s)"]) % "ab"[v]
-    if x < 0.7:
-        v = rng.randrange(2)
-        sx, js = gen_operand(rng, depth - 1)
+    if kind == "asg":
+        v = 0 if rng.random() < 0.7 else 1            # mostly the left operand's own local
         form = rng.randrange(3)
-        if form == 0:
-            return "(3 %d %s)" % (v, sx), "(%s = %s)" % ("ab"[v], js)
-        if form == 1:
-            return "(3 %d %s)" % (v, sx), "(%s += %s)" % ("ab"[v], js)
-        return "(3 %d (0))" % v, "(%s%s)" % ("ab"[v], rng.choice(["++", "--"]))
-    (s1, j1), (s2, j2) = gen_operand(rng, depth - 1), gen_operand(rng, depth - 1)
-    return "(4 %s %s)" % (s1, s2), "(%s %s %s)" % (j1, rng.choice(["+", "-", "*", "<", "&", "==", "**", ">="]), j2)
+        if form == 2 or depth <= 0:
+            return "(3 %d (0))" % v, "(%s%s)" % ("ab"[v], rng.choice(["++", "--"]))
+        sx, js = sub()
+        return "(3 %d %s)" % (v, sx), "(%s %s %s)" % ("ab"[v], "=" if form == 0 else rng.choice(["+=", "*=", "|="]), js)
+    if kind == "bin":
+        (s1, j1), (s2, j2) = sub(), sub()
+        return "(4 %s %s)" % (s1, s2), "(%s %s %s)" % (j1, rng.choice(["+", "-", "*", "<", "&", "==", "**", ">=", "in", "instanceof"]), j2)
+    if kind == "mem":
+        s1, j1 = sub()
+        return "(5 %s)" % s1, "%s%s" % (wrap_target(j1), rng.choice([".p", ".length", "?.p"]))
+    if kind in ("idx", "optidx"):
+        (s1, j1), (s2, j2) = sub(), gen_operand(rng, depth - 1, force="asg" if rng.random() < 0.6 else None)
+        return "(6 %s %s)" % (s1, s2), "%s%s[%s]" % (wrap_target(j1), "?." if kind == "optidx" else "", j2)
+    if kind in ("call", "optcall"):
+        (s1, j1), (s2, j2), (s3, j3) = sub(), sub(), gen_operand(rng, depth - 1, force="asg" if rng.random() < 0.5 else None)
+        return "(7 (7 %s %s) %s)" % (s1, s2, s3), "%s%s(%s, %s)" % (wrap_target(j1), "?." if kind == "optcall" else "", j2, j3)
+    if kind == "cond":
+        (s1, j1), (s2, j2), (s3, j3) = sub(), sub(), sub()
+        return "(8 %s %s %s)" % (s1, s2, s3), "(%s ? %s : %s)" % (j1, j2, j3)
+    (s1, j1), (s2, j2) = sub(), gen_operand(rng, depth - 1, force="asg" if rng.random() < 0.5 else None)
+    js = {"arr": "[%s, %s]", "obj": "({k: %s, m: %s})", "tpl": "`${%s}-${%s}`", "comma": "(%s, %s)"}[kind] % (j1, j2)
+    return "(7 %s %s)" % (s1, s2), js
+
+
+def sexp_parse(s):
+    toks = s.replace("(", " ( ").replace(")", " ) ").split()
+    pos = [0]
+
+    def item():
+        if toks[pos[0]] == "(":
+            pos[0] += 1
+            out = []
+            while toks[pos[0]] != ")":
+                out.append(item())
+            pos[0] += 1
+            return out
+        pos[0] += 1
+        return int(toks[pos[0] - 1])
+    return item()
+
+
+def harmless_target_only(e):
+    """the right-operand test of a rule that accepts property accesses by looking at the target chain only and never at
+    a computed key (Deep2_C04.v: snapshot_member_fastpath) — used to count the probes on which such a rule differs"""
+    return e[0] in (0, 1, 2) or (e[0] in (5, 6) and harmless_target_only(e[1]))
+
+
+def wrap_target(js):
+    return js if re.fullmatch(r"[ab]|\(.*\)|\[.*\]|`.*`", js, re.S) else "(%s)" % js
 
 
 def dump_blocks(trace_json):
@@ -436,11 +487,18 @@ def reg_of(field, ins):
 def shortcut_decisions(run, js_bin, n_ops):
     """-> (list of disagreements, stats)"""
     probes = []           # (id, kind, model line, js, aux)
+    shapes = [None, "atom", "asg", "mem", "idx", "atom", "optidx", "call", "idx", "optcall", "arr", "mem", "obj", "tpl", "atom", "comma", "cond", "bin"]
     for k in range(n_ops):
-        sx, js = gen_operand(run.rng, 3)
-        op = run.rng.choice(["+", "-", "*", "<", "<=", "&", "|", "===", "%", ">>"])
-        probes.append(("op%d" % k, "op", "dec-op op%d (4 (2 0) %s)" % (k, sx),
-                       "function f(){ let a = 1; let b = 2; return a %s %s; }" % (op, js), None))
+        sx, js = gen_operand(run.rng, 3, force=shapes[k % len(shapes)])
+        op = run.rng.choice(["+", "-", "*", "**", "<", "<=", ">", "&", "|", "^", "===", "!=", "%", ">>", "in", "instanceof"])
+        if k % 3 == 2 and op in ("<", "<=", ">"):
+            # relational operator in branch position: the fused compare-and-branch path
+            prog = "function f(){ let a = 1; let b = 2; if (a %s %s) { return 1; } return 0; }" % (op, js)
+        else:
+            prog = "function f(){ let a = 1; let b = 2; return a %s %s; }" % (op, js)
+        e_ = sexp_parse(sx)
+        probes.append(("op%d" % k, "op", "dec-op op%d (4 (2 0) %s)" % (k, sx), prog,
+                       harmless_target_only(e_) and e_[0] in (5, 6)))
     for k, opn in enumerate(["++", "--"]):
         probes.append(("upd%d" % k, "upd", None, "function f(){ let a = 1; let q = a%s; return q; }" % opn, None))
     k = 0
@@ -455,7 +513,7 @@ def shortcut_decisions(run, js_bin, n_ops):
                 probes.append(("h%d" % k, "hoist", "dec-hoist h%d %d %d %d" % (k, lhs_eff, 1 if loop == "do" else 0, under_with), js, None))
                 k += 1
     out = by_id(run_batch([js_bin], ["cfg dump=1"] + ["run %s %s" % (p[0], A.escape_line(p[3])) for p in probes]))
-    BIN = re.compile(r"^(\w+) \{ dst: RegisterOperand\(\d+\), lhs: RegisterOperand\((\d+)\), rhs: RegisterOperand\((\d+)\) \}")
+    BIN = re.compile(r"^(\w+) \{ [^}]*lhs: RegisterOperand\((\d+)\), rhs: RegisterOperand\((\d+)\) \}")
     mlines, boa = [], {}
     bad = []
     for (pid, kind, mline, js, _aux) in probes:
@@ -509,6 +567,8 @@ def shortcut_decisions(run, js_bin, n_ops):
                         "what": {"op": "left operand: 1 = copied to a temporary, 0 = the local's register is the operand",
                                  "upd": "postfix update lowering", "hoist": "1 = const operand read in front of the loop"}[by[pid][1]]})
     return bad, {"probes": len(probes), "compared": n, "operand_probes": n_ops,
+                 "operand_probes_where_a_target_only_member_rule_differs": sum(1 for p in probes if p[1] == "op" and p[4]),
+                 "of_which_key_assigns_the_left_local": sum(1 for p in probes if p[1] == "op" and p[4] and re.search(r"\[[^\]]*\ba\b\s*(\+\+|--|=|\+=|\*=|\|=)", p[3])),
                  "copied": sum(1 for p, b in boa.items() if p.startswith("op") and b == "1"),
                  "direct": sum(1 for p, b in boa.items() if p.startswith("op") and b == "0"),
                  "hoisted": sum(1 for p, b in boa.items() if p.startswith("h") and b == "1")}
@@ -744,7 +804,7 @@ def main():
     dec_bad = []
     if model_ok:
         t0 = time.time()
-        dec_bad, dstats = shortcut_decisions(run, paths["js"], 60 if run.quick else 400)
+        dec_bad, dstats = shortcut_decisions(run, paths["js"], 120 if run.quick else 600)
         run.cov["shortcut_decisions"] = dict(dstats, mismatches=len(dec_bad), wall_s=round(time.time() - t0, 1))
         for d in dec_bad[:3]:
             run.violation({"kind": "correspondence-broken", "input": d["probe"], "detail": d,
